@@ -41,6 +41,24 @@ CFG = {
 
 CODES = {
     101: 'a batch output (error kind / reported ids) differs from the reference spec',
+    161: 'concurrent reads only (no writer, cold start): a search failed with "point does not exist"',
+    162: 'concurrent reads only: a search failed with "transaction has ended"',
+    163: 'concurrent reads only: a search failed with another error',
+    164: 'concurrent reads only: a search did not return',
+    165: 'concurrent reads only: a search failed with "failed to get node ...: not found" -- it read through the single bucket '
+         'handle of the shared cache after the reader that installed it had ended (known finding)',
+    166: 'concurrent reads only: a search returned the same point twice',
+    167: 'concurrent reads only: a returned point is not live, with that document, in the only committed version',
+    171: 'forced schedule (search run wholly while the writer is stopped inside its write transaction, nothing committed): the '
+         'search failed with "point does not exist" -- it saw the writer\'s uncommitted cache content',
+    172: 'forced schedule: the search failed with "transaction has ended"',
+    173: 'forced schedule: the search failed with another error',
+    174: 'forced schedule: the search did not return while the writer was stopped (it waits for the writer)',
+    175: 'forced schedule: the search failed with "failed to get node ...: not found"',
+    176: 'forced schedule: a search returned the same point twice',
+    177: 'forced schedule: a returned point is not live, with that document, in the only committed version',
+    178: 'forced schedule run: final state read warm differs from the reference',
+    179: 'forced schedule run: final state read after reopening differs from the reference',
     181: 'the process died during the concurrent run',
     182: 'the process hung during the concurrent run',
     189: 'the race detector reported a data race',
@@ -48,6 +66,8 @@ CODES = {
          'of a node found in a newer shared cache) -- known finding',
     192: 'a search failed spuriously: "transaction has ended" (bucket handle of another, finished transaction)',
     193: 'a search failed with another error',
+    194: 'a search failed spuriously: "failed to get node ...: not found" (a node read as absent through the bucket handle of '
+         'another, finished transaction) -- known finding',
     195: 'a search returned the same point twice',
     196: 'a returned point is not live, with that document, in any committed version of the search window',
     197: 'final state read warm differs from the sequential application of the successful batches',
